@@ -457,9 +457,14 @@ fn build_quantity(raw: &[(u8, f32, i64, i8, i8)]) -> Vec<QTok> {
         }
         match choice {
             5 => {
-                prog.push(QTok::Neg);
-                let l = st.len();
-                st[l - 1].fresh = false;
+                // an integer that came out of a saturating float -> int conversion may be i64::MIN: negating it overflows
+                // (a panic with overflow checks, a wrap without): outside the stated domain, so not generated
+                let top = *st.last().unwrap();
+                if top.ty == 0 || top.bits <= 60 {
+                    prog.push(QTok::Neg);
+                    let l = st.len();
+                    st[l - 1].fresh = false;
+                }
             }
             6 => {
                 // abs only on a fresh non-zero literal: abs(-0.0) differs in sign between std and no_std
